@@ -3,17 +3,21 @@
 import json, sys
 pid = sys.argv[1]
 n = int(sys.argv[2]) if len(sys.argv) > 2 else 4
+rnd = sys.argv[3] if len(sys.argv) > 3 else ''
 p = next(json.loads(l) for l in open('/verif/properties.jsonl') if json.loads(l)['id'] == pid)
 anch = '; '.join(f"{m['name']} @ {m['where']}" for m in p['anchors'].get('mechanism', []))
+EXTRA = ''
+if rnd:
+    EXTRA = ("This is a SECOND round: an earlier author already tried plain sign slips, swapped indices, changed tolerances/thresholds, dtype leaks through np.empty_like/np.asarray, shape confusions for N == 3/4, caches with incomplete keys and `x or default` falsy-zero slips. Be more inventive: aim for (1) a change confined to a code path reached only through a rarely used but documented option or entry point, (2) a change whose effect depends on object state carried between calls or on call order, (3) a numerically subtle change (loss of precision, a formula valid only on part of the domain, a wrong branch of a multi-valued function, an 'equivalent' algebraic rewrite that is not equivalent at an edge), (4) a change that only matters for a specific combination of two options or two inputs. Avoid duplicates of each other.\n\n")
 print(f"""You are testing how well an (undisclosed) verification suite detects realistic regressions in the Python library Mayitzin/ahrs. You get ONLY the text of one semantic property and a scratch git worktree of the repository. Do not look at or use anything under /verif. Do not touch /repo itself.
 
-Setup: create your own worktree: `git -C /repo worktree add --detach /tmp/seed-{pid} HEAD` and work only inside /tmp/seed-{pid}. Run python as `cd /tmp/seed-{pid} && PYTHONPATH=/tmp/seed-{pid} /venv/bin/python ...` (check `import ahrs; print(ahrs.__file__)` points into /tmp/seed-{pid}). The existing test-suite is run with `cd /tmp/seed-{pid} && PYTHONPATH=/tmp/seed-{pid} /venv/bin/python -m pytest -q -p no:cacheprovider tests` (about 15 s, 250 tests).
+Setup: create your own worktree: `git -C /repo worktree add --detach /tmp/seed{rnd}-{pid} HEAD` and work only inside /tmp/seed{rnd}-{pid}. Run python as `cd /tmp/seed{rnd}-{pid} && PYTHONPATH=/tmp/seed{rnd}-{pid} /venv/bin/python ...` (check `import ahrs; print(ahrs.__file__)` points into /tmp/seed{rnd}-{pid}). The existing test-suite is run with `cd /tmp/seed{rnd}-{pid} && PYTHONPATH=/tmp/seed{rnd}-{pid} /venv/bin/python -m pytest -q -p no:cacheprovider tests` (about 15 s, 250 tests).
 
 Property {pid} — "{p['title']}": {p['statement']}
 Quantified over: {p['quantifier']['text']}.
 Why the tests cannot settle it: {p['why_tests_cant']}
 Code anchors: {anch}. Observe at: {'; '.join(p['anchors'].get('observe_at', []))}.
 
-Task: produce {n} different source changes (mutations) to the library, each of which breaks this property while the package still imports and the ENTIRE existing test-suite still passes. Prefer changes that need something specific to manifest — a particular region of inputs, a particular mode/option/frame/method, a multi-step sequence of calls, an unusual but legal input, or two cooperating sites that each look fine alone — rather than ones any ordinary call would expose at once. At least one should be a subtle numerical/branch/threshold change (not a plain sign flip), and they should touch different functions. Each must be a plausible slip a maintainer could make (refactor, "optimisation", shortcut, copy-paste), and small (a few lines).
+{EXTRA}Task: produce {n} different source changes (mutations) to the library, each of which breaks this property while the package still imports and the ENTIRE existing test-suite still passes. Prefer changes that need something specific to manifest — a particular region of inputs, a particular mode/option/frame/method, a multi-step sequence of calls, an unusual but legal input, or two cooperating sites that each look fine alone — rather than ones any ordinary call would expose at once. At least one should be a subtle numerical/branch/threshold change (not a plain sign flip), and they should touch different functions. Each must be a plausible slip a maintainer could make (refactor, "optimisation", shortcut, copy-paste), and small (a few lines).
 
-For each mutation i = 1..{n} deliver in /tmp/seed-{pid}-out/m<i>/: `patch.diff` (output of `git diff` in the worktree, applying cleanly to /repo HEAD with `git apply`), `demo.py` (a small standalone program that exits 0 on the unmodified library and exits 1 — printing what went wrong — with the mutation applied; it must import ahrs from the current PYTHONPATH), and `meta.json` with keys: property ("{pid}"), summary, what_it_needs_to_manifest, files_changed, tests_pass (true after you really ran the suite with the mutation), demo_fails_with_patch (true), demo_passes_without_patch (true). Reset the worktree (`git checkout -- .`) between mutations. When finished remove the worktree: `git -C /repo worktree remove --force /tmp/seed-{pid}`. Report a one-paragraph summary per mutation.""")
+For each mutation i = 1..{n} deliver in /tmp/seed{rnd}-{pid}-out/m<i>/: `patch.diff` (output of `git diff` in the worktree, applying cleanly to /repo HEAD with `git apply`), `demo.py` (a small standalone program that exits 0 on the unmodified library and exits 1 — printing what went wrong — with the mutation applied; it must import ahrs from the current PYTHONPATH), and `meta.json` with keys: property ("{pid}"), summary, what_it_needs_to_manifest, files_changed, tests_pass (true after you really ran the suite with the mutation), demo_fails_with_patch (true), demo_passes_without_patch (true). Reset the worktree (`git checkout -- .`) between mutations. When finished remove the worktree: `git -C /repo worktree remove --force /tmp/seed{rnd}-{pid}`. Report a one-paragraph summary per mutation.""")
